@@ -4,9 +4,16 @@
 (* For every discipline execution of a trace TLC prints the file content the  *)
 (* specification predicts at that crash point (CRASHFILE): the harness kills  *)
 (* a child process in exactly that execution and compares the real file.      *)
+(* At the end of a run TLC judges the final history against the uninterrupted *)
+(* run of the same scenario (DONE): equal when Backup!SameHistoryDue says so  *)
+(* for the termination cause of the uninterrupted run and the counter policy  *)
+(* of the restart, a continuation of it otherwise.                            *)
 EXTENDS Backup, Json, IOUtils, TLCExt
 Traces == JsonDeserialize(IOEnv.TRACE_FILE)
-\* trace: [id, init (seq of [pt, outs]), req (seq over Points of seq of outs), events]
+\* trace: [id, init (seq of [pt, outs]), req (seq over Points of seq of outs), events,
+\*         policy ("fresh" | "reset" | "kept"), maxiter, exact (0/1: stored values are replayed exactly),
+\*         ref (final history of the uninterrupted run, seq of [pt, outs]; <<>> for that run itself),
+\*         refcause ("budget" | "tol" | "algo" | "none")]
 VARIABLES tid, l
 tvars == <<vars, tid, l>>
 T == Traces[tid]
@@ -19,23 +26,46 @@ TInit == /\ tid \in 1..Len(Traces) /\ l = 1
          /\ stores = Canon(Db(T.init))
          /\ executing = 0 /\ crashed = FALSE /\ nCrash = 0 /\ reworked = FALSE
          /\ req = [p \in Points |-> IF p <= Len(T.req) THEN ToSet(T.req[p]) ELSE {}]
+         /\ policy = T.policy /\ wasReset = (T.policy = "reset")
+         /\ counter = CounterAfterLoad(T.policy, Db(T.init))
+         /\ plan = <<>> /\ near = {} /\ maxIter = T.maxiter /\ pos = 0 /\ sub = 0 /\ ran = 0
+         /\ cause = "running" /\ ended = FALSE /\ phase = "trace"
+         /\ refdb = Db(T.ref) /\ refcause = T.refcause
 
 IsEv(e) == l <= Len(T.events) /\ Ev.ev = e /\ l' = l + 1 /\ UNCHANGED tid
 
 TExecStart == /\ IsEv("exec_start") /\ Ev.p \in Points /\ ExecStart(Ev.p)
               /\ ~reworked'                                   \* NoRework
               /\ PrintT(<<"CRASHFILE", T.id, Ev.k, file>>)
-TExecEnd   == IsEv("exec_end") /\ executing = Ev.p /\ ExecEnd
+              /\ UNCHANGED rvars
+TExecEnd   == IsEv("exec_end") /\ executing = Ev.p /\ ExecEnd /\ UNCHANGED rvars
 \* an export must follow when the backup option says so
 ExportDue(p, O) == EachCall \/ (EachIter /\ OutsAt(db, p) = {} /\ O # {})
 TStore     == /\ IsEv("store") /\ Ev.p \in Points /\ ToSet(Ev.os) \subseteq Outs
               /\ Store(Ev.p, ToSet(Ev.os))
               /\ (ExportDue(Ev.p, ToSet(Ev.os)) => (l < Len(T.events) /\ T.events[l + 1].ev = "export"))
+              /\ UNCHANGED rvars
 \* every export (the due ones, the catch-up export at the end of BaseScenario.execute, or any
 \* additional one) leaves in the real file exactly the database of that moment
 TExport    == /\ IsEv("export") /\ Db(Ev.file) = db /\ executing = 0 /\ file' = db
-              /\ UNCHANGED <<db, stores, executing, crashed, nCrash, loaded, req, reworked>>
-TDone      == IsEv("done") /\ Db(Ev.db) = db /\ executing = 0 /\ UNCHANGED vars
+              /\ UNCHANGED <<db, stores, executing, crashed, nCrash, loaded, req, reworked, counter, policy, wasReset>>
+              /\ UNCHANGED rvars
+\* the run is over: its database is the model's; the final history is judged against the uninterrupted
+\* run (T.ref) by the rule that Backup.tla proves for deterministic runs replayed exactly.
+\*   due:    SameHistory is demanded for this (cause of the uninterrupted run, counter policy)
+\*   same:   the final history is the one of the uninterrupted run, and the run ended for the same cause
+\*   prefix: the history of the uninterrupted run is the beginning of the final history
+\*   count:  the real evaluation counter is the model's (evidence only: not a clause of the property)
+TDone      == /\ IsEv("done") /\ Db(Ev.db) = db /\ executing = 0
+              /\ PrintT(<<"DONE", T.id,
+                          [due    |-> (T.exact = 1 /\ SameHistoryDue(refcause, wasReset)),
+                           same   |-> (db = refdb /\ Ev.cause = refcause),
+                           prefix |-> IsPrefixDb(refdb, db),
+                           count  |-> (Ev.counter = counter),
+                           cause  |-> Ev.cause, refcause |-> refcause, policy |-> policy,
+                           counter |-> counter, entries |-> Len(db), loaded |-> Len(loaded)]>>)
+              /\ cause' = Ev.cause /\ ended' = TRUE
+              /\ UNCHANGED <<bvars, plan, near, maxIter, pos, sub, ran, phase, refdb, refcause>>
 
 TNext == TExecStart \/ TExecEnd \/ TStore \/ TExport \/ TDone
 TSpec == TInit /\ [][TNext]_tvars
